@@ -49,7 +49,31 @@ syntax-directed and anything outside the stated shape still raises `Unsupported`
 * a bare local annotation `x: T` (no value): no runtime effect, skipped.  Keyword-only parameters become positional parameters in
   signature order; their defaults (constants only) are recorded in the generated doc comment, callers pass every argument.
 * `try: <body> except Exception: <handler>` (no else/finally) as the WHOLE body of a function: the try body is translated and the
-  generated doc comment says so; the translation speaks about the inputs on which the try body does not raise."""
+  generated doc comment says so; the translation speaks about the inputs on which the try body does not raise.
+
+OBLIGATION-CHECKER EXTENSIONS (used by `extractors/src_translation_obligations.py` for `BasicObligationChecker.check`):
+
+* a function designator may be `Class.method` (a method of a top-level class; `self` is an ordinary, unused parameter).
+* FLOW fragments — a statement range that can `return` AND can be left normally: the Lean definition has type `Rbacx.Py.Flow`,
+  `.ret v` = the range executed `return v`, `.next [v1, …]` = control left the range normally with these values of its output
+  variables.  Two shapes: a `loop_body_from` range that contains a `return` (outputs: the carried variables, then `broke`, as before),
+  and kind `"before_loop"`: the statements of the function body before the `for` statement, up to but excluding the ONE statement
+  whose text starts with `start` (that statement and what follows it up to the loop stay hand-modelled and are named in the generated
+  doc comment; they may not assign a variable the range assigns).  Outputs of a `before_loop` range: the variables it assigns that
+  are mentioned elsewhere in the function, in order of first assignment.
+* EXTERNAL functions (`externals=[name, …]`): a call `name(a, …)` of a module-level function that is NOT translated becomes an
+  application of an extra function parameter `(name : PyVal → … → PyVal)` (after `o`, before the inputs).  The translation says
+  nothing about what the function computes: the per-run obligation instantiates it with the model's counterpart and the differential
+  run supplies CPython's results as a table.
+* `d.get("k", default)` (`getD`), float constants with an integral value (`0.0`), `<`/`>`/`<=`/`>=` (`lt`/`gt`/`le`/`ge`: floats with
+  floats, ints with ints; other operand kinds — a TypeError or a mixed comparison in CPython — are not represented), f-strings
+  whose replacement fields have no conversion and no format spec (`fstr`; `format(x, "")` is `str(x)` for every JSON-shaped value, so a
+  field is `strO o x`), tuple displays as `return` values (lists, as everywhere).
+* `try: X = <E> except TypeError: X = <C>` where `<E>` is built from `bool(…)`, `not`, names, constants and exactly ONE call
+  `D.get(K)` with names `D`, `K`, and `<C>` is a constant: `let X := if Rbacx.Py.hashable K then <E> else <C>`.  Justification: on
+  JSON-shaped values the only operation of `<E>` that can raise TypeError is the hashing of the key by `dict.get`, which happens
+  exactly for an unhashable key (list, dict) and before anything is assigned; `bool`/`not` never raise.  (For a `D` that is not a dict
+  CPython raises AttributeError, which this handler does not catch, while `getV` answers None: outside the domain, as for every `.get`.)"""
 from __future__ import annotations
 
 import ast
@@ -84,7 +108,8 @@ def lean_str(s: str) -> str:
 
 
 class Translator:
-    def __init__(self, known: set[str], consts: dict | None = None, joins: bool = False, oracle: bool = False):
+    def __init__(self, known: set[str], consts: dict | None = None, joins: bool = False, oracle: bool = False,
+                 externals: list[str] | tuple = ()):
         self.known = known        # python names of the functions being translated (callable from one another)
         self.consts = consts or {}   # module-level NAME = <tuple/str/int constant> assignments, inlined at their uses
         self.locals: set[str] = set()
@@ -94,6 +119,8 @@ class Translator:
         self.cur_oracle = False   # the function being translated takes `o`
         self.njoin = 0
         self.notes: list[str] = []
+        self.externals = list(externals)    # module-level functions that stay outside the translation: function parameters
+        self.ext_arity: dict[str, int] = {}   # the externals actually called → number of arguments
 
     # ------------------------------------------------------------------ expressions
     def E(self, e: ast.expr) -> str:
@@ -113,6 +140,8 @@ class Translator:
                 return f"(PyVal.str {lean_str(v)})"
             if isinstance(v, int):
                 return f"(PyVal.int {v})" if v >= 0 else f"(PyVal.int ({v}))"
+            if isinstance(v, float) and v == v and abs(v) < 2 ** 53 and v.is_integer() and str(v) == f"{int(v)}.0" and not str(v).startswith("-"):
+                return f"(PyVal.float {int(v)}.0)"          # an integral float below 2^53: the decimal literal denotes it exactly
             raise Unsupported(f"constant {v!r}")
         if isinstance(e, ast.Dict) and not e.keys:
             return "(PyVal.dict [])"
@@ -122,6 +151,18 @@ class Translator:
             return "(Rbacx.Py.dictOf [" + ", ".join(f"({lean_str(k.value)}, {self.E(v)})" for k, v in zip(e.keys, e.values)) + "])"
         if isinstance(e, (ast.List, ast.Tuple)):
             return "(PyVal.list [" + ", ".join(self.E(x) for x in e.elts) + "])"
+        if isinstance(e, ast.JoinedStr):
+            parts = []
+            for p in e.values:
+                if isinstance(p, ast.Constant) and isinstance(p.value, str):
+                    parts.append(f"(PyVal.str {lean_str(p.value)})")
+                elif isinstance(p, ast.FormattedValue) and p.conversion == -1 and p.format_spec is None:
+                    if not (self.oracle and self.cur_oracle):
+                        raise Unsupported("f-string replacement field without the oracle parameter")
+                    parts.append(f"(Rbacx.Py.strO o {self.E(p.value)})")
+                else:
+                    raise Unsupported(f"f-string part {ast.unparse(e)}")
+            return "(Rbacx.Py.fstr [" + ", ".join(parts) + "])"
         if isinstance(e, ast.BoolOp):
             op = "PyVal.por" if isinstance(e.op, ast.Or) else "Rbacx.Py.pand"
             acc = self.E(e.values[-1])
@@ -151,6 +192,9 @@ class Translator:
             if isinstance(op, ast.Gt) and isinstance(a, ast.Call) and isinstance(a.func, ast.Name) and a.func.id == "len" \
                     and isinstance(b, ast.Constant) and isinstance(b.value, int):
                 return f"(Rbacx.Py.gtInt (Rbacx.Py.len {self.E(a.args[0])}) {b.value})"
+            for cls, nm in ((ast.Lt, "lt"), (ast.Gt, "gt"), (ast.LtE, "le"), (ast.GtE, "ge")):
+                if isinstance(op, cls):
+                    return f"(Rbacx.Py.{nm} {self.E(a)} {self.E(b)})"
             raise Unsupported(f"comparison {ast.dump(op)}")
         if isinstance(e, ast.ListComp):
             if len(e.generators) != 1 or e.generators[0].is_async or not isinstance(e.generators[0].target, ast.Name):
@@ -176,6 +220,9 @@ class Translator:
             if isinstance(f, ast.Attribute) and f.attr == "get" and len(e.args) == 1 and isinstance(e.args[0], ast.Constant) \
                     and isinstance(e.args[0].value, str) and not e.keywords:
                 return f"(Rbacx.Py.get {self.E(f.value)} {lean_str(e.args[0].value)})"
+            if isinstance(f, ast.Attribute) and f.attr == "get" and len(e.args) == 2 and isinstance(e.args[0], ast.Constant) \
+                    and isinstance(e.args[0].value, str) and not e.keywords:
+                return f"(Rbacx.Py.getD {self.E(f.value)} {lean_str(e.args[0].value)} {self.E(e.args[1])})"
             if isinstance(f, ast.Attribute) and f.attr == "get" and len(e.args) == 1 and isinstance(e.args[0], ast.Name) and not e.keywords:
                 return f"(Rbacx.Py.getV {self.E(f.value)} {self.E(e.args[0])})"
             if isinstance(f, ast.Name):
@@ -196,6 +243,11 @@ class Translator:
                     return f"(Rbacx.Py.strOf {self.E(e.args[0])})"
                 if f.id == "bool" and len(e.args) == 1 and not e.keywords and f.id not in self.locals:
                     return f"(Rbacx.Py.boolOf {self.E(e.args[0])})"
+                if f.id in self.externals and f.id not in self.locals and f.id not in self.known and e.args and not e.keywords \
+                        and not any(isinstance(a, ast.Starred) for a in e.args):
+                    if self.ext_arity.setdefault(f.id, len(e.args)) != len(e.args):
+                        raise Unsupported(f"external function {f.id} is called with different numbers of arguments")
+                    return "(" + " ".join([ident(f.id)] + [self.E(a) for a in e.args]) + ")"
                 if f.id in self.known and not e.keywords and f.id not in self.locals:
                     if f.id in self.uses_oracle and not self.cur_oracle:
                         raise Unsupported(f"call of {f.id}, which needs the oracle, from a function without it")
@@ -426,28 +478,74 @@ class Translator:
         return isinstance(e, ast.Dict) or (isinstance(e, ast.Call) and isinstance(e.func, ast.Name) and e.func.id == "dict"
                                            and len(e.args) <= 1 and not e.keywords)
 
-    def SF(self, stmts: list[ast.stmt], ind: str, fresh: frozenset, outs: list[str] | None) -> str:
+    def try_shape(self, st: ast.Try) -> tuple[str, str, ast.expr, ast.expr]:
+        """(X, K, E, C) of `try: X = E except TypeError: X = C` in the one accepted shape (module docstring); raises otherwise"""
+        ok = (len(st.body) == 1 and not st.orelse and not st.finalbody and len(st.handlers) == 1
+              and isinstance(st.handlers[0].type, ast.Name) and st.handlers[0].type.id == "TypeError" and st.handlers[0].name is None
+              and len(st.handlers[0].body) == 1)
+        a, h = (st.body[0], st.handlers[0].body[0]) if ok else (None, None)
+        ok = ok and all(isinstance(x, ast.Assign) and len(x.targets) == 1 and isinstance(x.targets[0], ast.Name) for x in (a, h)) \
+            and a.targets[0].id == h.targets[0].id and isinstance(h.value, ast.Constant)
+        if not ok:
+            raise Unsupported("try statement: only `try: X = <E> except TypeError: X = <constant>` is translated")
+        gets: list[ast.Call] = []
+
+        def walk(n: ast.expr) -> None:
+            if isinstance(n, (ast.Name, ast.Constant)):
+                return
+            if isinstance(n, ast.UnaryOp) and isinstance(n.op, ast.Not):
+                return walk(n.operand)
+            if isinstance(n, ast.Call) and isinstance(n.func, ast.Name) and n.func.id == "bool" and "bool" not in self.locals \
+                    and len(n.args) == 1 and not n.keywords:
+                return walk(n.args[0])
+            if isinstance(n, ast.Call) and isinstance(n.func, ast.Attribute) and n.func.attr == "get" and isinstance(n.func.value, ast.Name) \
+                    and len(n.args) == 1 and isinstance(n.args[0], ast.Name) and not n.keywords:
+                gets.append(n)
+                return
+            raise Unsupported(f"try body: {ast.unparse(n)} (only bool(…), not, names, constants and one D.get(K) may occur)")
+        walk(a.value)
+        if len(gets) != 1:
+            raise Unsupported("try body: exactly one call D.get(K) is needed (it is what can raise the TypeError)")
+        return a.targets[0].id, gets[0].args[0].id, a.value, h.value
+
+    def SF(self, stmts: list[ast.stmt], ind: str, fresh: frozenset, outs: list[str] | None, flow: str | None = None) -> str:
         """statements of a fragment; `outs` is None for a fragment that returns, else the carried variables of a loop-body fragment;
-        `fresh` = the variables currently bound to a dict built in the fragment and not aliased since"""
+        `fresh` = the variables currently bound to a dict built in the fragment and not aliased since;
+        `flow`: None (the result is a PyVal), `"loop"` / `"seq"` = a FLOW fragment (the result is a `Rbacx.Py.Flow`) that is a loop body
+        (outputs + broke) / a straight statement sequence (outputs)"""
         def leave(broke: bool) -> str:
-            return "(PyVal.list [" + ", ".join([ident(v) for v in outs] + [f"(PyVal.bool {'true' if broke else 'false'})"]) + "])"
+            vals = [ident(v) for v in outs] + ([f"(PyVal.bool {'true' if broke else 'false'})"] if flow != "seq" else [])
+            if flow:
+                return "(Rbacx.Py.Flow.next [" + ", ".join(vals) + "])"
+            return "(PyVal.list [" + ", ".join(vals) + "])"
         if not stmts:
             return "PyVal.none" if outs is None else leave(False)
         st, rest = stmts[0], stmts[1:]
         if isinstance(st, ast.Pass) or (isinstance(st, ast.Expr) and isinstance(st.value, ast.Constant) and isinstance(st.value.value, str)):
-            return self.SF(rest, ind, fresh, outs)
+            return self.SF(rest, ind, fresh, outs, flow)
         if isinstance(st, ast.Return):
+            v = self.E(st.value) if st.value is not None else "PyVal.none"
+            if flow:
+                return f"(Rbacx.Py.Flow.ret {v})"
             if outs is not None:
                 raise Unsupported("return inside a loop-body fragment")
-            return self.E(st.value) if st.value is not None else "PyVal.none"
+            return v
         if isinstance(st, ast.Break):
-            if outs is None:
+            if outs is None or flow == "seq":
                 raise Unsupported("break outside a loop-body fragment")
             return leave(True)
         if isinstance(st, ast.Continue):
-            if outs is None:
+            if outs is None or flow == "seq":
                 raise Unsupported("continue outside a loop-body fragment")
             return leave(False)
+        if isinstance(st, ast.Try):
+            x, k, e, c = self.try_shape(st)
+            note = (f"`try: {x} = {ast.unparse(e)} except TypeError: {x} = {ast.unparse(c)}` is `if hashable {k} then … else …`: "
+                    f"the `.get` raises TypeError exactly for an unhashable key (list, dict)")
+            if note not in self.notes:
+                self.notes.append(note)
+            return (f"let {ident(x)} := if Rbacx.Py.hashable {ident(k)} then {self.E(e)} else {self.E(c)}\n"
+                    f"{ind}{self.SF(rest, ind, fresh - self._escaping(e) - {x}, outs, flow)}")
         if isinstance(st, (ast.Assign, ast.AnnAssign)):
             tgt = st.targets[0] if isinstance(st, ast.Assign) else st.target
             if (isinstance(st, ast.Assign) and len(st.targets) != 1) or st.value is None:
@@ -457,18 +555,18 @@ class Translator:
                 fresh2 = fresh - esc - {tgt.id}
                 if self._builds_dict(st.value):
                     fresh2 = fresh2 | {tgt.id}
-                return f"let {ident(tgt.id)} := {self.E(st.value)}\n{ind}{self.SF(rest, ind, fresh2, outs)}"
+                return f"let {ident(tgt.id)} := {self.E(st.value)}\n{ind}{self.SF(rest, ind, fresh2, outs, flow)}"
             if isinstance(tgt, ast.Subscript) and isinstance(tgt.value, ast.Name) and isinstance(tgt.slice, ast.Constant) \
                     and isinstance(tgt.slice.value, str) and isinstance(st, ast.Assign):
                 x = tgt.value.id
                 if x not in fresh or x in esc:
                     raise Unsupported(f"item assignment to {x}, which is not (or no longer provably) an unaliased dict built in this fragment")
                 return (f"let {ident(x)} := Rbacx.Py.setItem {ident(x)} {lean_str(tgt.slice.value)} {self.E(st.value)}\n"
-                        f"{ind}{self.SF(rest, ind, fresh - esc, outs)}")
+                        f"{ind}{self.SF(rest, ind, fresh - esc, outs, flow)}")
             raise Unsupported(f"assignment {ast.unparse(st)[:60]}")
         if isinstance(st, ast.If):
-            a = self.SF(st.body + rest, ind + "  ", fresh, outs)
-            b = self.SF(st.orelse + rest, ind + "  ", fresh, outs)
+            a = self.SF(st.body + rest, ind + "  ", fresh, outs, flow)
+            b = self.SF(st.orelse + rest, ind + "  ", fresh, outs, flow)
             return f"if ({self.E(st.test)}).truthy then\n{ind}  {a}\n{ind}else\n{ind}  {b}"
         raise Unsupported(f"statement {ast.unparse(st)[:60]}")
 
@@ -537,25 +635,41 @@ def _flow(stmts: list[ast.stmt], local: set[str], defined: set[str], free: list[
             return None
         elif isinstance(st, (ast.Break, ast.Continue)):
             return None
+        elif isinstance(st, ast.Try) and len(st.body) == 1 and isinstance(st.body[0], ast.Assign) and len(st.body[0].targets) == 1 \
+                and isinstance(st.body[0].targets[0], ast.Name):
+            # `try: X = E except TypeError: X = C` (the shape is checked by Translator.try_shape): reads E, assigns X on both paths
+            read(st.body[0].value)
+            x = st.body[0].targets[0].id
+            defined.add(x)
+            if x not in assigned:
+                assigned.append(x)
         else:
             raise Unsupported(f"statement {ast.unparse(st)[:60]}")
     return defined
 
 
 def _function(tree: ast.Module, name: str) -> ast.FunctionDef:
-    for n in tree.body:
+    body = tree.body
+    if "." in name:
+        cls, name = name.split(".", 1)
+        hits = [n for n in tree.body if isinstance(n, ast.ClassDef) and n.name == cls]
+        if len(hits) != 1:
+            raise Unsupported(f"class {cls} not found")
+        body = hits[0].body
+    for n in body:
         if isinstance(n, ast.FunctionDef) and n.name == name:
             return n
     raise Unsupported(f"function {name} not found")
 
 
-_NOT_IN_FRAGMENTS = (ast.For, ast.While, ast.Try, ast.With, ast.FunctionDef, ast.AsyncFunctionDef, ast.ClassDef, ast.Lambda, ast.Global,
+_NOT_IN_FRAGMENTS = (ast.For, ast.While, ast.With, ast.FunctionDef, ast.AsyncFunctionDef, ast.ClassDef, ast.Lambda, ast.Global,
                      ast.Nonlocal, ast.NamedExpr, ast.Delete, ast.AugAssign, ast.Raise, ast.Await, ast.Yield, ast.YieldFrom, ast.Import,
                      ast.ImportFrom, ast.Assert, ast.Match)
 
 
 def fragment(tree: ast.Module, fn_name: str, kind: str, start: str | None = None) -> dict:
-    """{"stmts", "inputs", "outputs" (None for a fragment that returns), "locals", "temporaries"} of the designated fragment"""
+    """{"stmts", "inputs", "outputs" (None for a fragment that returns), "locals", "temporaries", "flow" (None | "loop" | "seq"),
+    "excluded" (before_loop: the statements between the range and the loop)} of the designated fragment"""
     fn = _function(tree, fn_name)
     loops = [i for i, st in enumerate(fn.body) if isinstance(st, ast.For)]
     if len(loops) != 1:
@@ -568,6 +682,7 @@ def fragment(tree: ast.Module, fn_name: str, kind: str, start: str | None = None
         raise Unsupported(f"signature of {fn_name}")
     params = {a.arg for a in args.posonlyargs + args.args + args.kwonlyargs}
     local = params | {n.id for n in ast.walk(fn) if isinstance(n, ast.Name) and isinstance(n.ctx, ast.Store)}
+    excluded: list[ast.stmt] = []
     if kind == "after_loop":
         stmts = fn.body[loops[0] + 1:]
     elif kind == "loop_body_from":
@@ -575,6 +690,14 @@ def fragment(tree: ast.Module, fn_name: str, kind: str, start: str | None = None
         if len(hits) != 1:
             raise Unsupported(f"{fn_name}: {len(hits)} statements of the loop body start with {start!r} (need exactly one)")
         stmts = loop.body[hits[0]:]
+    elif kind == "before_loop":
+        pre = fn.body[:loops[0]]
+        if start:
+            hits = [i for i, st in enumerate(pre) if ast.unparse(st).startswith(start)]
+            if len(hits) != 1:
+                raise Unsupported(f"{fn_name}: {len(hits)} statements before the loop start with {start!r} (need exactly one)")
+            pre, excluded = pre[:hits[0]], pre[hits[0]:]
+        stmts = pre
     else:
         raise Unsupported(f"fragment kind {kind}")
     if not stmts:
@@ -586,53 +709,105 @@ def fragment(tree: ast.Module, fn_name: str, kind: str, start: str | None = None
     free: list[str] = []
     assigned: list[str] = []
     end = _flow(stmts, local, set(), free, assigned)
+    returns = any(isinstance(n, ast.Return) for st in stmts for n in ast.walk(st))
     if kind == "after_loop":
         if end is not None:
             raise Unsupported(f"{fn_name}: the statements after the loop can run off the end without a return")
-        return {"stmts": stmts, "inputs": free, "outputs": None, "locals": local, "temporaries": [v for v in assigned if v not in free]}
+        return {"stmts": stmts, "inputs": free, "outputs": None, "locals": local, "temporaries": [v for v in assigned if v not in free],
+                "flow": None, "excluded": []}
     inside = {id(n) for st in stmts for n in ast.walk(st)}
     elsewhere = params | {n.id for n in ast.walk(fn) if isinstance(n, ast.Name) and id(n) not in inside}
     temps = [v for v in assigned if v not in free and v not in elsewhere]
     carried = [v for v in assigned if v not in temps]
+    if kind == "before_loop":
+        if any(v in assigned for v in free):
+            raise Unsupported(f"{fn_name}: the statements before the loop read {[v for v in free if v in assigned]} before assigning them")
+        clash = [v for v in Translator._stores(excluded) if v in assigned]
+        if clash:
+            raise Unsupported(f"{fn_name}: the statements left out between the range and the loop assign {clash}, which the range assigns too")
+        if end is not None and any(v not in end for v in carried):
+            raise Unsupported(f"{fn_name}: an output variable of the statements before the loop is not assigned on every path")
+        return {"stmts": stmts, "inputs": free, "outputs": carried, "locals": local, "temporaries": temps, "flow": "seq",
+                "excluded": excluded}
     return {"stmts": stmts, "inputs": [v for v in free if v not in assigned] + carried, "outputs": carried, "locals": local,
-            "temporaries": temps}
+            "temporaries": temps, "flow": "loop" if returns else None, "excluded": []}
 
 
-def translate_fragment(source: str, fn_name: str, kind: str, start: str | None, lean_name: str, known: set[str]) -> dict:
-    """{"lean": definition text, "inputs": [...], "outputs": [...] | None}; `known` = the translated functions the fragment may call"""
+def translate_fragment(source: str, fn_name: str, kind: str, start: str | None, lean_name: str, known: set[str],
+                       oracle: bool = False, externals: list[str] | tuple = ()) -> dict:
+    """{"lean": definition text, "inputs": [...], "outputs": [...] | None, "flow": bool, "oracle": bool, "externals": [[name, arity]…]};
+    `known` = the translated functions the fragment may call; `oracle`, `externals`: see the module docstring"""
     tree = ast.parse(source)
     fr = fragment(tree, fn_name, kind, start)
-    tr = Translator(set(known), _module_consts(tree))
+    tr = Translator(set(known), _module_consts(tree), oracle=oracle, externals=externals)
     tr.locals = set(fr["locals"])
-    taken = {ident(k) for k in known} | {ident(lean_name)}
+    if oracle:
+        tr.cur_oracle = any((isinstance(n, ast.Call) and isinstance(n.func, ast.Name) and n.func.id == "str") or isinstance(n, ast.JoinedStr)
+                            for st in fr["stmts"] for n in ast.walk(st))
+    taken = {ident(k) for k in known} | {ident(lean_name)} | ({"o"} if tr.cur_oracle else set()) | {ident(x) for x in externals}
     names = fr["inputs"] + fr["temporaries"]
     if any(ident(v) in taken for v in names) or len({ident(v) for v in names}) != len(names):
         raise Unsupported(f"{fn_name}: variable names clash after renaming: {names}")
-    body = tr.SF(fr["stmts"], "  ", frozenset(), fr["outputs"])
-    params = " ".join(f"({ident(v)} : PyVal)" for v in fr["inputs"])
+    body = tr.SF(fr["stmts"], "  ", frozenset(), fr["outputs"], fr["flow"])
+    exts = [x for x in externals if x in tr.ext_arity]
+    params = " ".join((["(o : Oracle)"] if tr.cur_oracle else [])
+                      + [f"({ident(x)} : {' → '.join(['PyVal'] * (tr.ext_arity[x] + 1))})" for x in exts]
+                      + [f"({ident(v)} : PyVal)" for v in fr["inputs"]])
     what = (f"statements after the for loop of `{fn_name}`" if kind == "after_loop"
+            else f"statements of `{fn_name}` before its for loop, up to `{start}…`" if kind == "before_loop"
             else f"body of the for loop of `{fn_name}` from the statement starting with `{start}`")
-    res = "the returned value" if fr["outputs"] is None else "(" + ", ".join(fr["outputs"] + ["broke"]) + ")"
-    doc = f"/-- fragment: {what}; inputs: {', '.join(fr['inputs'])}; result: {res} -/\n"
-    return {"lean": f"{doc}def {ident(lean_name)} {params} : PyVal :=\n  {body}\n", "inputs": fr["inputs"], "outputs": fr["outputs"]}
+    vals = (fr["outputs"] or []) + (["broke"] if kind == "loop_body_from" else [])
+    res = ("the returned value" if fr["outputs"] is None
+           else f".ret v = `return v`, .next [{', '.join(vals)}] = left normally" if fr["flow"] else "(" + ", ".join(vals) + ")")
+    notes = []
+    if tr.cur_oracle:
+        notes.append("`o`: the oracle that supplies CPython's `str()` of floats, containers and datetimes")
+    for x in exts:
+        notes.append(f"`{ident(x)}`: the module-level function `{x}`, NOT translated — a parameter (the obligation instantiates it with the "
+                     f"model's counterpart, the differential run with CPython's results)")
+    if fr["excluded"]:
+        notes.append("left out, hand-modelled: " + "; ".join(f"`{ast.unparse(x)}`" for x in fr["excluded"]))
+    notes += tr.notes
+    doc = (f"/-- fragment: {what}; inputs: {', '.join(fr['inputs'])}; result: {res}" + "".join("; " + n for n in notes)).replace("-/", "- /") + " -/\n"
+    ty = "Rbacx.Py.Flow" if fr["flow"] else "PyVal"
+    return {"lean": f"{doc}def {ident(lean_name)} {params} : {ty} :=\n  {body}\n", "inputs": fr["inputs"], "outputs": fr["outputs"],
+            "flow": bool(fr["flow"]), "oracle": tr.cur_oracle, "externals": [[x, tr.ext_arity[x]] for x in exts]}
+
+
+class _TagReturns(ast.NodeTransformer):
+    """`return X` → `return ("ret", X)` (fragments contain no nested functions)"""
+
+    def visit_Return(self, node: ast.Return) -> ast.Return:
+        val = node.value if node.value is not None else ast.Constant(None)
+        return ast.Return(ast.Tuple([ast.Constant("ret"), val], ast.Load()))
 
 
 def fragment_as_python(source: str, fn_name: str, kind: str, start: str | None, globs: dict):
     """the SAME fragment as a real Python function built from the source text: `f(*inputs)` returns the fragment's returned value, or
-    the tuple `(carried…, broke)`; free functions (`_is_applicable`, …) resolve in `globs` (the module's globals).
-    Returns (function, inputs, outputs)."""
+    the tuple `(carried…, broke)`; for a FLOW fragment `("ret", v)` when the range executed `return v` and `("next", (outputs…))` when
+    it was left normally (loop bodies: outputs = carried…, broke).  Free functions (`_is_applicable`, `_finite_number`, …) resolve in
+    `globs` (the module's globals).  Returns (function, inputs, outputs)."""
+    import copy
     tree = ast.parse(source)
     fr = fragment(tree, fn_name, kind, start)
     params = ", ".join(fr["inputs"])
+    stmts = list(fr["stmts"])
+    if fr["flow"]:
+        stmts = [_TagReturns().visit(copy.deepcopy(st)) for st in stmts]
     if fr["outputs"] is None:
         mod = ast.parse(f"def _fragment({params}):\n    pass\n")
-        mod.body[0].body = list(fr["stmts"])
+        mod.body[0].body = stmts
+    elif fr["flow"] == "seq":
+        outs = "".join(v + ", " for v in fr["outputs"])
+        mod = ast.parse(f"def _fragment({params}):\n    pass\n    return ('next', ({outs}))\n")
+        mod.body[0].body[0:1] = stmts
     else:
         # `continue` and running off the end reach the `else` of the one-shot loop, `break` skips it
-        outs = ", ".join(fr["outputs"])
-        mod = ast.parse(f"def _fragment({params}):\n    for _once in (0,):\n        pass\n    else:\n        return ({outs}, False)\n"
-                        f"    return ({outs}, True)\n")
-        mod.body[0].body[0].body = list(fr["stmts"])
+        outs = "".join(v + ", " for v in fr["outputs"])
+        wrap = (lambda t: f"('next', {t})") if fr["flow"] else (lambda t: t)
+        mod = ast.parse(f"def _fragment({params}):\n    for _once in (0,):\n        pass\n    else:\n        return {wrap(f'({outs}False,)')}\n"
+                        f"    return {wrap(f'({outs}True,)')}\n")
+        mod.body[0].body[0].body = stmts
     ast.fix_missing_locations(mod)
     ns = dict(globs)
     exec(compile(mod, f"<fragment of {fn_name}>", "exec"), ns)  # noqa: S102
